@@ -1042,6 +1042,10 @@ M("c10-f40-reintroduced", ["C10", "C11"], ["C10.access", "C11.target"],
                 )
             )
 """, ""))
+M("c04-f41-reintroduced", ["C04", "C01", "C14"], ["C04.clear", "C01.reject", "C14.first"],
+  E("statemachine/engines/sync.py", "                    except BaseException:", "                    except Exception:"))
+M("c04-f41-reintroduced-async", ["C04", "C01", "C14"], ["C04.clear", "C01.reject", "C14.first"],
+  E("statemachine/engines/async_.py", "                    except BaseException:", "                    except Exception:"))
 M("c07-partial-key-ignores-keywords", ["C07", "C16"], ["C07.cachekey", "C16.cachekey"],
   E(SIG, "        bound = (len(method.args), tuple(sorted(method.keywords)))", "        bound = len(method.args)"))
 M("c17-event-deepcopy-returns-self", ["C17", "C13"], ["C17.carry", "C13.bind"],
